@@ -1,4 +1,5 @@
 import KitModel.Go.Prelude
+import KitModel.Generated.C15
 /-!
 # Model of `github.com/dapr/kit/ttlcache` (property C15)
 
@@ -47,15 +48,17 @@ def mkeysWhere {α : Type} (m : AMap α) (p : α → Bool) : List Key :=
 
 /-! ### time arithmetic -/
 
-/-- `time.Second` in nanoseconds. -/
-def second : Int := 1000000000
+/-- The unit `Set` multiplies the ttl by (`time.Second` in the source), in nanoseconds — taken from
+the regenerated facts. -/
+def second : Int := Src.ttlUnitNs
 
 /-- Two's-complement wrap of an `int64` result. -/
 def wrap64 (x : Int) : Int :=
   (x + 9223372036854775808) % 18446744073709551616 - 9223372036854775808
 
 /-- TTL actually used by `Set`: capped by `MaxTTL` when that is configured (`> 0`). -/
-def effTTL (maxTTL ttl : Int) : Int := if maxTTL > 0 ∧ ttl > maxTTL then maxTTL else ttl
+def effTTL (maxTTL ttl : Int) : Int :=
+  if Src.capEnabledCmp.rel maxTTL Src.capEnabledBound ∧ Src.capCmp.rel ttl maxTTL then maxTTL else ttl
 
 /-- `time.Duration(ttl) * time.Second` as Go computes it (int64, wraps on overflow). -/
 def durNs (maxTTL ttl : Int) : Int := wrap64 (effTTL maxTTL ttl * second)
@@ -95,10 +98,14 @@ inductive Out where
 /-- What `Get k` returns in state `c`. -/
 def getOf (c : Cache) (k : Key) : Option Val :=
   match mget c.m k with
-  | some e => if c.now < e.exp then some e.val else none
+  | some e => if Src.getHitCmp.rel e.exp c.now then some e.val else none
   | none => none
 
-def expiredAt (now : Int) (e : Entry) : Bool := decide (e.exp < now)
+/-- `Cleanup`'s criterion (regenerated comparison). -/
+def expiredAt (now : Int) (e : Entry) : Bool := decide (Src.cleanupCmp.rel e.exp now)
+
+/-- `Set`'s panic guard (regenerated comparison and bound). -/
+abbrev badTTL (ttl : Int) : Prop := Src.setPanicCmp.rel ttl Src.setPanicBound
 
 def doSet (c : Cache) (k : Key) (v : Val) (ttl : Int) : Cache :=
   { c with m := mput c.m k { val := v, exp := c.now + durNs c.maxTTL ttl } }
@@ -110,7 +117,7 @@ def doReset (c : Cache) : Cache :=
   { c with m := mdelKeys c.m (mkeysWhere c.m (fun _ => true)) }
 
 def step (c : Cache) : Op → Cache × Out
-  | .set k v ttl => if ttl ≤ 0 then (c, .panic) else (doSet c k v ttl, .done)
+  | .set k v ttl => if badTTL ttl then (c, .panic) else (doSet c k v ttl, .done)
   | .get k => (c, match getOf c k with | some v => .hit v | none => .miss)
   | .delete k => ({ c with m := mdelKeys c.m [k] }, .done)
   | .cleanup => (doCleanup c, .done)
@@ -200,8 +207,13 @@ structure CState where
   raced : List (Key × Nat)
   deriving Repr
 
+/-- `NewCache`: a non-positive interval is replaced by the default (regenerated guard and value). -/
+def effPeriod (period : Int) : Int :=
+  if Src.intervalDefaultCmp.rel period Src.intervalDefaultBound then Src.intervalDefaultNs else period
+
 def CState.init (maxTTL t0 period : Int) : CState :=
-  { m := [], now := t0, maxTTL := maxTTL, cls := [], period := period, nextTick := t0 + period,
+  { m := [], now := t0, maxTTL := maxTTL, cls := [], period := effPeriod period,
+    nextTick := t0 + effPeriod period,
     tickPending := false, tickerStopped := false, bg := .idle, stopClosed := false,
     runningClosed := false, stoppers := [], ref := [], stamp := 0, raced := [] }
 
@@ -225,7 +237,7 @@ inductive Label where
 /-- What `Get k` returns in state `s`. -/
 def getOfC (s : CState) (k : Key) : Option Val :=
   match mget s.m k with
-  | some (e, _) => if s.now < e.exp then some e.val else none
+  | some (e, _) => if Src.getHitCmp.rel e.exp s.now then some e.val else none
   | none => none
 
 def findCl (cls : List Cleaner) (id : Nat) : Option Cleaner := cls.find? (fun c => c.id == id)
@@ -240,12 +252,12 @@ def nextTickAfter (next period now' : Int) : Int := next + ((now' - next) / peri
 def visit (m : AMap SEntry) (c : Cleaner) (k : Key) : Cleaner :=
   match mget m k with
   | some (e, st) =>
-      if c.isReset || decide (e.exp < c.now0) then { c with keys := c.keys ++ [(k, st)] } else c
+      if c.isReset || expiredAt c.now0 e then { c with keys := c.keys ++ [(k, st)] } else c
   | none => c
 
 def cstep (s : CState) : Label → Option CState
   | .set k v ttl =>
-      if ttl ≤ 0 then none else
+      if badTTL ttl then none else
       let e : SEntry := ({ val := v, exp := s.now + durNs s.maxTTL ttl }, s.stamp)
       some { s with m := mput s.m k e, ref := mput s.ref k e, stamp := s.stamp + 1 }
   | .get k r => if getOfC s k = r then some s else none
